@@ -158,6 +158,17 @@ def gen_C12(tier, seed):
             p.frame(lf, 'FR', [c], **(kw_ if cls == 'frame' else {}))
             p.write(1, valid=False, mustraise='listscalar')
             progs.append(p.build())
+        # ragged nested values (one value array per zone, of different shapes): no DIMENSION describes them
+        for j, (cls, vals) in enumerate([('parameter', L(L(F(1.0), F(2.0)), L(F(3.0)))), ('computation', L(L(F(1.0), F(2.0)), L(F(3.0)))),
+                                         ('parameter', L(L(I(1), I(2)), I(3))), ('computation', L(L(L(F(1.0)), L(F(2.0))), L(L(F(3.0)))))]):
+            p = fringe(f'ragged-{cls}-{j}-{r_}', 'ragged')
+            lf, _ = base_lf(p)
+            c = p.channel(lf, 'CH', data=np.arange(3, dtype='float64'))
+            p.frame(lf, 'FR', [c])
+            z1, z2 = p.add(lf, 'zone', 'Z1'), p.add(lf, 'zone', 'Z2')
+            p.add(lf, cls, 'RAGGED', zones=L(R(z1), R(z2)), values=vals)
+            p.write(1, valid=False, mustraise='ragged')
+            progs.append(p.build())
         # no origin / channels / frames
         p = fringe(f'noorigin-{r_}', 'noorigin')
         minimal(p, origin=False)
